@@ -221,6 +221,17 @@ def d3_matrices(ctx, idx):
             negd = any(c[0] == 'cmp' and c[1] in ('<', '<=') and c[2] in dets and c[3][0] == 'num' and
                        (c[3][1] < 0 or (c[3][1] == 0 and c[1] == '<')) for c in conj)
             mentions_det = any(ai.mentions(c, det_t) for c in conj)
+            tiny = [c for c in conj if c[0] == 'cmp' and c[1] in ('<', '<=') and ai.mentions(c[2], det_t) and c[3][0] == 'num'
+                    and 0 < c[3][1] <= ai.Fraction(1, 1000) and not (c[2] in dets)]
+            if tiny:
+                comp = [q for q in paths if q is not p and len(q.conds) == len(p.conds) and
+                        all((a == b) or (a == tiny[0] and b == ai.t_not(tiny[0])) for a, b in zip(p.conds, q.conds))]
+                tiny = tiny if (comp and all(q.kind == 'raise' for q in comp)) else []
+            if tiny:
+                r.violation(construct, 'the rescaled array is returned only under `%s`, i.e. for a determinant that is numerically zero (division '
+                            'by ~0), while every ordinary draw raises Retry: after 100 attempts gen_sample fails with ValueError instead of '
+                            'returning a unit-determinant matrix' % ai.show(tiny[0]), where, expected='raise Retry() when |det| is below the threshold')
+                continue
             if absolute and not pos:
                 # |det| = sigma*det with sigma the sign of det: known only from a guard that holds on the whole path
                 if realbranch and negd:
@@ -859,8 +870,14 @@ def d3_det_zero(ctx, idx):
             stores = [e for e, _ in p.effects if e[0] == 'store']
             small = any(c[0] == 'cmp' and c[1] == '<' and ai.mentions(c[2], det_t) and c[3][0] == 'num' for c in p.conds)
             if p.value == base and not stores:
+                large = [c for c in p.conds if c[0] == 'cmp' and c[1] in ('<', '<=') and c[2][0] == 'num' and ai.mentions(c[3], det_t)
+                         and not any(c2[0] == 'cmp' and c2[1] in ('<', '<=') and ai.mentions(c2[2], det_t) and c2[3][0] == 'num' for c2 in p.conds)]
                 if small:
                     r.ok('make_det_zero: unchanged array', 'only when |det| is already below the threshold', where)
+                elif large:
+                    r.violation('make_det_zero: unchanged array', 'the array is returned unchanged under `%s`, i.e. exactly when its determinant '
+                                'does NOT vanish: samples declared to have determinant 0 keep their random determinant' % ai.show(large[0]), where,
+                                expected='return array only if |det| < threshold')
                 elif any(ai.mentions(c, det_t) for c in p.conds):
                     r.undecided('make_det_zero: unchanged array', 'condition on the determinant `%s` not recognised' % guards, where)
                 else:
@@ -886,6 +903,20 @@ def d3_det_zero(ctx, idx):
                     ok = i[0] == 'call' and i[1] == 'numpy.random.randint' and i[2] == (dimt,) and not i[3]
                     r.check(ok, construct, 'array[k, k] = 0 with k = randint(dimension)', 'the zeroed position `%s` is not a random diagonal index '
                             'below dimension' % ai.show(i), where, expected='randint(dimension)', found=ai.show(i))
+                continue
+            empties = [s_ for s_ in ai.subterms(p.value) if s_[0] == 'call' and s_[1] == 'numpy.random.randint' and len(s_[2]) == 1
+                       and s_[2][0][0] == 'call' and s_[2][0][1] == 'len']
+            conj = [c for g in p.conds for c in ai.t_conjuncts(g)]
+            bad_empty = [e for e in empties if not any(c in (('cmp', '!=', e[2][0], ai.num(0)), ('cmp', '!=', ai.num(0), e[2][0]),
+                                                             ('cmp', '<', ai.num(0), e[2][0]), ('cmp', '<=', ai.num(1), e[2][0])) for c in conj)]
+            if bad_empty:
+                e = bad_empty[0]
+                reach = [c for c in conj if ai.mentions(c, e[2][0])]
+                r.violation('make_det_zero: eigenvalue choice', 'an index is drawn with randint(%s) on a path %s: when no real eigenvalue exists the '
+                            'candidate list is empty, randint(0) raises ValueError (low >= high) and gen_sample fails instead of drawing again '
+                            '(a real matrix without real eigenvalues is a common draw, e.g. ~1/3 of 2x2 matrices)' % (
+                                ai.show(e[2][0])[:60], ('taken under `%s`' % ai.show(reach[0])[:80]) if reach else 'that does not exclude an empty list'),
+                            where, expected='if len(idxs) == 0: raise Retry()')
                 continue
             # array - eye(dimension) * lambda
             construct = 'make_det_zero: shift under %s' % guards
@@ -925,6 +956,35 @@ def d3_det_zero(ctx, idx):
                 k = _cx_scalar(lam2)
             except Unsupported as ex:
                 r.undecided(construct, str(ex), where)
+                continue
+            # option combinations that reach this return: eigvalsh needs a Hermitian argument, a real sampler needs a real eigenvalue
+            solver = e[1][1].split('.')[-1]
+            real_wrapped = ai.mentions(lam, ('call', 'numpy.real', (e,), ()))
+            combos_bad = []
+            for sym_ in SYMMETRIES:
+                for cx_ in (False, True):
+                    cxe = cx_ or sym_ in ('hermitian', 'antihermitian')
+                    asg_ = {'symmetry': sym_, 'complex': cxe}
+                    vals_ = [ai.enum_eval(g, asg_) for g in p.conds]
+                    if any(v_ is not UNK and not v_ for v_ in vals_):
+                        continue
+                    if solver == 'eigvalsh':
+                        herm = (X == base and (sym_ == 'hermitian' or (sym_ in ('symmetric', 'diagonal') and not cxe))) or \
+                               (X != base and sym_ == 'antihermitian')
+                        if not herm:
+                            combos_bad.append(('eigvalsh', sym_, cxe))
+                    if not cxe and not real_wrapped and sym_ != 'diagonal':
+                        combos_bad.append(('complex-eigenvalue', sym_, cxe))
+            if combos_bad:
+                kind_, sym_, cxe = combos_bad[0]
+                if kind_ == 'eigvalsh':
+                    r.violation(construct, 'np.linalg.eigvalsh (valid for Hermitian arguments only) is applied to `%s` for symmetry=%r, complex=%r: '
+                                'its result is not an eigenvalue of that array, so array - lambda*I does not have determinant 0'
+                                % (ai.show(X)[:40], sym_, cxe), where, expected='eigvalsh only for real symmetric / hermitian (or 1j*antihermitian)')
+                else:
+                    r.violation(construct, 'for the real sampler symmetry=%r, complex=False an arbitrary (generally complex) eigenvalue is '
+                                'subtracted: the sample becomes complex although it is declared real' % sym_, where,
+                                expected='a real eigenvalue (np.real of one whose imaginary part vanishes)')
                 continue
             E = Rat.sym('E')
             # lambda = kappa * E with kappa * c == 1 (eigenvalues of c*A are c times those of A)
